@@ -129,7 +129,18 @@ func H_C14_value_forms() {
 	g := &Group{}
 	calls := 0
 	wantCalls := 0
-	switch nondetChoice("kind", 12) {
+	switch nondetChoice("kind", 14) {
+	case 12:
+		// a format without parameters still goes through the formatter in every form
+		a, b, c = Commentf("100%%"), newStatement().Commentf("100%%"), g.Commentf("100%%")
+		want, _ := c14raw(Comment("100%"), f)
+		got, _ := c14raw(a, f)
+		verifAssert(got == want, "Commentf is Comment of the formatted text")
+	case 13:
+		a, b, c = Commentf("a %s b", "x"), newStatement().Commentf("a %s b", "x"), g.Commentf("a %s b", "x")
+		want, _ := c14raw(Comment("a x b"), f)
+		got, _ := c14raw(a, f)
+		verifAssert(got == want, "Commentf is Comment of the formatted text")
 	case 0:
 		v := nondetInt("v", -1000000, 1000000)
 		a, b, c = Lit(v), newStatement().Lit(v), g.Lit(v)
